@@ -31,4 +31,5 @@ INVARIANT MeanThenVariance
 INVARIANT MeanThenSpread
 INVARIANT SurgeryThenMean
 INVARIANT DefFacts
+INVARIANT CurIsLight
 INVARIANT Emit
